@@ -62,10 +62,10 @@ def answer (s : St) : String :=
 def finish (d : DSt) (s : St) : DSt × String :=
   match runToHalt (env d) fuel s with
   | some s' => ({ d with s := { s' with diag := [], exc := none } }, answer s')
-  | none => ({ d with s := { s with stack := [], exc := none, diag := [] } }, "hang")
+  | none => ({ d with s := { s with stack := [], exc := none, diag := [], ub := true } }, "hang")
 
 def step (d : DSt) (t : List String) : DSt × String :=
-  if d.s.ub then (d, "ub") else
+  if d.s.ub && t != ["c14reset"] then (d, "ub") else
   match t with
   | ["c14reset"] =>
     let d : DSt := { s := { depth := d.s.depth }, cfg := { maxDepth := d.cfg.maxDepth }, tickMs := 0 }
